@@ -42,6 +42,17 @@ Theorem C05_zero_exit_means_clean : forall t, exit_code t = 0 ->
 Proof. exact zero_exit_means_clean. Qed.
 Print Assumptions C05_zero_exit_means_clean.
 
+(* the CLI around the engine: an internal error in the main thread (FatalError event) or a raising report handler
+   always ends in a non-zero exit code; exit code 0 implies neither happened and the engine-level rule holds *)
+Theorem C05_cli_fatal_error_exits_nonzero : forall l, In CFatalError l \/ In CHandlerRaises l -> cli_exit_code l = 1.
+Proof. exact cli_fatal_error_exits_nonzero. Qed.
+Print Assumptions C05_cli_fatal_error_exits_nonzero.
+
+Theorem C05_cli_zero_exit_means_no_abort : forall l, cli_exit_code l = 0 ->
+  (forall x, In x l -> cli_aborts x = false) /\ exit_code (cli_engine_events l) = 0.
+Proof. exact cli_zero_exit_means_no_abort. Qed.
+Print Assumptions C05_cli_zero_exit_means_no_abort.
+
 (* non-vacuity: a complete quiet run of three operations (failing, erroring, unbuildable) on two workers *)
 Theorem C05_complete_example :
   let c := cfg_now None in
